@@ -108,7 +108,7 @@ BufVerdict(c, e, b0, b1, sent, lows, thr, q) ==
   IN IF b1 < 0 THEN "C13.buffered_negative"
      ELSE IF b1 > peakHi THEN "C13.buffered_overcount"
      ELSE IF q >= 0 /\ st \in {1, 2} /\ b1 # q /\ ~(q = b1 + 1 \/ q + 1 = b1) THEN "C13.buffered_exact"
-     ELSE IF lows < lowMin \/ lows > lowMax THEN "C13.low_event"
+     ELSE IF (st # 3 /\ lows < lowMin) \/ lows > lowMax THEN "C13.low_event"
      ELSE "ok"
 
 \* a bufferedamountlow event whose observed amount was above the threshold
